@@ -119,6 +119,7 @@ def check(run):
                 "distinct = (route, element order, declared pairs, grid)")
     run.assumptions += ["tokeniser setfl_tokens", "the header's 5th number (nr*dr) and the three comment lines are not constrained by the property and are not compared",
                         "potable tracers are written with an explicit '>=0' range so that f(0) is the function's value (the default '>0' range is C08's)"]
+    decimal_grid_steps(run)
     n = run.n(250, 4000)
     cases = [gen_case(run.rng) for _ in range(n)]
     if not run.quick:
@@ -154,6 +155,62 @@ def check(run):
                 dd, tt = compare(small, mm)
                 run.fail("setfl-mismatch", "setfl file differs from the model/property: %s" % dd,
                          dict(case=describe(small), first_difference=dd, impl_tokens=tt, model_tokens=mm))
+
+
+def decimal_grid_steps(run):
+    """potable models on DECIMAL grids (dr = 0.1, 0.05, 0.07 ...) whose density and embedding functions are step functions with the steps ON grid points: row i of a block is the
+    function at i*step (the double product, step = cutoff/(n-1)), so a row at a step takes the value of the range that contains i*step - whatever way the writer walks the grid
+    (round-10 seed C03_16: the density rows taken at an r accumulated by repeated addition, which drifts an ulp or two below the grid point)"""
+    rng = run.rng
+    bad = 0
+    for _ in range(run.n(25, 300)):
+        els = rng.sample(["Al", "Cu", "Ni", "Ag"], rng.randint(1, 2))
+        nr, nrho = rng.randint(11, 90), rng.randint(11, 60)
+        dr, drho = rng.choice(["0.1", "0.05", "0.07", "0.3", "0.01"]), rng.choice(["0.1", "0.05", "0.07", "0.3"])
+        cut = impl.decimal_str(Fr(dr) * (nr - 1))
+        cutrho = impl.decimal_str(Fr(drho) * (nrho - 1))
+
+        def steps(n, d):
+            ks = sorted(rng.sample(range(1, n - 1), min(n - 2, rng.randint(1, 4))))
+            vals = [Fr(rng.randint(1, 999), 1000) for _k in range(len(ks) + 1)]
+            text = ">=0 as.constant %s " % impl.decimal_str(vals[0]) + " ".join(">=%s as.constant %s" % (impl.decimal_str(Fr(d) * k), impl.decimal_str(v)) for k, v in zip(ks, vals[1:]))
+            bounds = [float(impl.decimal_str(Fr(d) * k)) for k in ks]
+            return text, bounds, [float(impl.decimal_str(v)) for v in vals]
+        dens = {e: steps(nr, dr) for e in els}
+        emb = {e: steps(nrho, drho) for e in els}
+        cfg = "[Tabulation]\ntarget : setfl\ncutoff : %s\nnr : %d\ncutoff_rho : %s\nnrho : %d\n\n[EAM-Embed]\n" % (cut, nr, cutrho, nrho)
+        cfg += "".join("%s : %s\n" % (e, emb[e][0]) for e in els) + "\n[EAM-Density]\n" + "".join("%s : %s\n" % (e, dens[e][0]) for e in els)
+        cfg += "\n[Pair]\n%s-%s : as.zero\n" % (els[0], els[0])
+        oc, out = impl.outcome_of(lambda: impl.config_tabulate(cfg))
+        run.case(key=("decimal-grid", cfg), kind="decimal-grid-step-functions/n=%d" % len(els))
+        run.traces += 1
+        if oc != "ok":
+            run.fail("setfl-mismatch", "a setfl model on a decimal grid with step functions is not tabulated: %s %s" % (oc, str(out)[:200]), dict(potable_file=cfg))
+            continue
+        lines = out.split("\n")
+        order = lines[3].split()[1:]
+        toks = " ".join(lines[5:]).split()
+        pos, problem = 0, None
+        step_r, step_rho = float(cut) / (nr - 1), float(cutrho) / (nrho - 1)
+
+        def want(fn, x):
+            _t, bounds, vals = fn
+            i = 0
+            while i < len(bounds) and x >= bounds[i]:
+                i += 1
+            return vals[i]
+        for e in order:
+            pos += 4
+            for blk, n, st, fn in (("embedding", nrho, step_rho, emb[e]), ("density", nr, step_r, dens[e])):
+                for i in range(n):
+                    got = float(toks[pos + i])
+                    w = want(fn, float(i) * st)
+                    if got != w and problem is None:
+                        problem = "%s block of %s, row %d (at %r = %d*%r): file has %r, the function there is %r" % (blk, e, i, float(i) * st, i, st, got, w)
+                pos += n
+        if problem and bad < 2:
+            bad += 1
+            run.fail("setfl-mismatch", "setfl on a decimal grid: " + problem, dict(potable_file=cfg))
 
 
 def replay(run, payload):
